@@ -51,8 +51,8 @@ def std_hyperplane_rows(dim):
 
 
 def gen_letter(rng, dim, kinds=None):
-    # Hyperplane objects exist only for dim >= 2 (in H^1 a hyperplane is a point and has no ideal basis; see h1_reflection_oracle)
-    kinds = kinds or (["elliptic", "loxodromic"] + (["rotation", "reflection", "reflectionD"] if dim >= 2 else [])
+    # in H^1 a hyperplane is a point: Hyperplane(normal) works (repaired), explicit ideal-basis data does not exist
+    kinds = kinds or (["elliptic", "loxodromic", "reflection"] + (["rotation", "reflectionD"] if dim >= 2 else [])
                       + (["sl2", "sl2"] if dim == 2 else []))
     k = rng.choice(kinds)
     if k == "rotation":
@@ -452,9 +452,9 @@ def fball(rng, dim, rmax=0.9):
 
 
 def gen_fletter(rng, dim, tmax):
-    kinds = ["origin_to", "tv_origin_to", "isometry_to", "elliptic", "loxodromic", "timelike_to", "spacelike_to"]
+    kinds = ["origin_to", "tv_origin_to", "isometry_to", "elliptic", "loxodromic", "timelike_to", "spacelike_to", "reflection"]
     if dim >= 2:
-        kinds += ["rotation", "reflection", "reflectionD"]
+        kinds += ["rotation", "reflectionD"]
     if dim == 2:
         kinds += ["sl2", "sl2", "cox"]
     if dim == 3:
@@ -627,8 +627,8 @@ def judge_oracle(inp, obs, lr):
 
 
 # ------------------------------------------------------------------------------------------------
-# S3 (finding): hyperplanes of H^1 are points; the Hyperplane class stores a hyperplane through an ideal basis,
-# which does not exist there, and silently builds wrong data
+# S3 (regression, repaired in 9eb3aca): hyperplanes of H^1 are points; Hyperplane(normal) used to build a lightlike row
+# that is not orthogonal to the normal and reflection_across() silently returned a non-isometry
 # ------------------------------------------------------------------------------------------------
 def gen_h1(rng, n):
     for _ in range(n):
@@ -646,7 +646,8 @@ def run_h1(inp):
 
 def judge_h1(inp, obs, lr):
     if "exc" in obs:
-        return None          # refusing is acceptable
+        return {"expected": "a reflection (or at least a GeometryError)", "observed": obs, "tags": {"ctor": "reflection", "dim": 1, "exc": obs["exc"]}} \
+            if obs["exc"] != "GeometryError" else None
     if not obs["res"] <= 1e-9:
         return {"expected": "the reflection of H^1 in the point with normal d preserves the form", "observed": obs,
                 "tags": {"ctor": "reflection", "dim": 1, "h1_hyperplane": True}}
@@ -675,6 +676,6 @@ CLAUSES = [
            site="every Isometry constructor; Transformation.apply/inv", budget={"quick": 300, "thorough": 12000},
            what="same with translation lengths up to 4"),
     Clause("h1_reflection_oracle", "oracle", gen_h1, run_h1, judge_h1, site="hyperbolic.Hyperplane (dimension 1)",
-           budget={"quick": 5, "thorough": 20},
-           what="Hyperplane(normal).reflection_across() in H^1 (known finding: the class cannot represent a hyperplane of H^1)"),
+           budget={"quick": 20, "thorough": 200},
+           what="Hyperplane(normal).reflection_across() in H^1 preserves the form (regression for the repaired ideal basis)"),
 ]
